@@ -8,16 +8,17 @@ JOBS = [
  _j("SCPI_ErrorInit", "queue initialised over the caller's storage", replace=["fifo_init"], props=["C10", "C01"]),
  _j("SCPI_ErrorCount", "count is the queue's", replace=["fifo_count"], props=["C10", "C01"]),
  _j("SCPI_ErrorAddInternal", "push, queue not full: stored text is a copy or absent (strndup may fail); every other slot unchanged",
-    name="error.SCPI_ErrorAddInternal.room",
+    name="error.SCPI_ErrorAddInternal.room", tier="thorough", timeout=3000, mem_gb=40, cost=50,
     replace=["fifo_add", "fifo_remove_last", "strndup", "free"], props=["C10", "C01"],
     trust=["strndup, free: assumed contracts (contracts/libc.h)"]),
  _j("SCPI_ErrorAddInternal", "push, queue full: newest replaced by -350, both texts released, everything older unchanged",
-    name="error.SCPI_ErrorAddInternal.full",
+    name="error.SCPI_ErrorAddInternal.full", tier="thorough", timeout=3000, mem_gb=40, cost=50,
     replace=["fifo_add", "fifo_remove_last", "strndup", "free"], props=["C10", "C01"],
     trust=["strndup, free: assumed contracts (contracts/libc.h)"]),
  _j("SCPI_ErrorPushEx", "C12 class bit for every int16 code, C11 coherence incl. QMA, C10 FIFO/overflow view, cmd_error, error callback counts",
     replace=["SCPI_ErrorAddInternal", "strnlen"] + _REGS, props=["C10", "C11", "C12", "C05", "C01"], kind="PU",
-    bound="class table loop fully unwound (9 rows, unwinding assertion on)", cbmc_flags=["--unwind", "40", "--unwinding-assertions"],
+    bound="class table loop fully unwound (9 rows, unwinding assertion on)",
+    assumes=["SCPI_ErrorAddInternal is used through its contract; that contract is discharged only in the thorough tier (jobs error.SCPI_ErrorAddInternal.*, ~10 min, > 12 GB)"], cbmc_flags=["--unwind", "40", "--unwinding-assertions"],
     trust=["strnlen: assumed contract (contracts/libc.h)"]),
  _j("SCPI_ErrorPush", "same clauses without text", replace=["SCPI_ErrorPushEx"], props=["C10", "C11", "C12", "C05", "C01"]),
  _j("SCPI_ErrorPop", "head out / 0 on empty, view shifts, QMA follows the queue, callback announces the drain",
